@@ -54,7 +54,13 @@ static int run(const std::string &ob, const Args &a)
     // generic: a few histories against trial division
     unsigned limit = has(a, "limit") ? (unsigned)int_of(a, "limit") : 1000;
     int bad = 0;
-    for (int clr = 0; clr < 2 && !bad; clr++) { Sieve::set_clear(clr); bad |= check_generate(limit); bad |= check_generate(limit / 2); bad |= check_generate(limit); }
+    for (int clr = 0; clr < 2 && !bad; clr++) {
+        Sieve::set_clear(clr); bad |= check_generate(limit); bad |= check_generate(limit / 2); bad |= check_generate(limit);
+        for (unsigned l = 2; l <= 300 && !bad; l++) bad |= check_generate(l);          // every small limit while the cache (clr = 0) already extends past it
+        for (unsigned l = 300; l >= 2 && !bad; l--) bad |= check_generate(l);
+        Sieve::iterator it(200); unsigned want = 2;
+        for (unsigned p = it.next_prime(); p <= 200 && !bad; p = it.next_prime()) { while (!is_prime(want)) want++; if (p != want) { std::cout << "REPRODUCED: iterator yields " << p << " where " << want << " is due\n"; bad = 1; } want++; }
+    }
     return bad;
 }
 int main(int argc, char **argv)
